@@ -196,6 +196,7 @@ type hist struct {
 	twinServers  map[int]bool
 	twinDisabled map[int]bool
 	twinFrom     int64
+	forceDup     string
 	stop         bool // end the history after this step (a violation left the model and the gateway apart)
 	modes []bed.HealthMode
 	// modeLog[e] = the /healthz mode changes of stub e with their instants
@@ -608,11 +609,17 @@ func (h *hist) setMode(e int, m bed.HealthMode) {
 }
 
 // genChange draws one change that is legal in the current model. allowHang: timeouts (5 s per probe) may be scripted.
-func (h *hist) genChange(g *vkit.Rand, allowHang bool, tickerWait bool) *change {
+// force >= 0: the kind of change to try first (case number below); the shapes whose minimum counts matter are constructed
+// in every history instead of being left to the draw.
+func (h *hist) genChange(g *vkit.Rand, allowHang bool, tickerWait bool, force int) *change {
 	m := h.m
 	for try := 0; try < 20; try++ {
 		after := m.clone()
-		switch g.Intn(13) {
+		kindNo := g.Intn(13)
+		if try == 0 && force >= 0 {
+			kindNo = force
+		}
+		switch kindNo {
 		case 11: // the cluster object is deleted and created again under the same name with another spec
 			hang := false
 			for e := 0; e < h.k; e++ {
@@ -703,7 +710,7 @@ func (h *hist) genChange(g *vkit.Rand, allowHang bool, tickerWait bool) *change 
 					cand = append(cand, s)
 				}
 			}
-			if len(cand) == 0 || (len(m.Disabled) > 0 && g.Chance(0.5)) {
+			if len(cand) == 0 || (len(m.Disabled) > 0 && h.forceDup == "" && g.Chance(0.5)) {
 				continue
 			}
 			e := g.PickInt(cand)
@@ -711,6 +718,9 @@ func (h *hist) genChange(g *vkit.Rand, allowHang bool, tickerWait bool) *change 
 			delete(after.Dup, e)
 			if g.Chance(0.4) {
 				after.Dup[e] = []string{"before", "after"}[g.Intn(2)]
+			}
+			if h.forceDup != "" {
+				after.Dup[e] = h.forceDup
 			}
 			return &change{Kind: "disable", Target: e, Detail: "listed twice: " + after.Dup[e], after: after, run: func() bool {
 				if after.Dup[e] != "" {
@@ -932,7 +942,7 @@ func runHistory(r *vkit.R, id int, g *vkit.Rand, steps int, allowHang, tickerWai
 	h := newHist(r, id, k)
 	defer h.close()
 	h.np = g.Range(1, 3)
-	if spellingsWork && g.Chance(0.3) {
+	if spellingsWork && id%3 == 1 {
 		for e := 0; e < k; e++ {
 			h.spell[e] = []string{"", "v6", "upper"}[g.Intn(3)]
 			if h.spell[e] != "" {
@@ -971,7 +981,7 @@ func runHistory(r *vkit.R, id int, g *vkit.Rand, steps int, allowHang, tickerWai
 	// start-up: in half of the histories requests are already arriving while the cluster is created and its endpoints are
 	// probed for the first time (before: no such cluster, nothing may be forwarded; after: the converged first state)
 	var startWG sync.WaitGroup
-	if g.Bool() {
+	if id%2 == 0 {
 		none := &model{Disabled: map[int]bool{}, Belief: map[int]bool{}, Mode: m.Mode, Subsets: make([][]int, h.np)}
 		for w := g.Range(2, 5); w > 0; w-- {
 			rg := g.Fork("start")
@@ -1001,8 +1011,8 @@ func runHistory(r *vkit.R, id int, g *vkit.Rand, steps int, allowHang, tickerWai
 	if !ok {
 		return
 	}
-	// twin cluster (a third of the histories): lists a seeded part of the same upstreams with its own disabled flags
-	if g.Chance(0.35) {
+	// twin cluster (every third history): lists a seeded part of the same upstreams with its own disabled flags
+	if id%3 == 0 {
 		h.twinHost = fmt.Sprintf("c03-%d-twin.test", id)
 		h.twinTok = fmt.Sprintf("gwt-c03-%d-%s", id, h.twinHost)
 		h.twinServers, h.twinDisabled = map[int]bool{}, map[int]bool{}
@@ -1034,7 +1044,20 @@ func runHistory(r *vkit.R, id int, g *vkit.Rand, steps int, allowHang, tickerWai
 
 	var changes []map[string]interface{}
 	for s := 1; s <= steps && !h.bad; s++ {
-		ch := h.genChange(g, allowHang, tickerWait && s%5 == 0)
+		force := -1
+		switch s {
+		case 2:
+			force = 10 // server removed + unbuildable server added (the next step drops the bad entry)
+		case 5:
+			force = 11 // cluster deleted and re-created
+		case 7:
+			force = 3 // disable (with a second, unflagged entry: see below)
+		}
+		h.forceDup = ""
+		if s == 7 {
+			h.forceDup = []string{"before", "after"}[id%2]
+		}
+		ch := h.genChange(g, allowHang, tickerWait && s%5 == 0, force)
 		if h.m.Bad != "" {
 			// the object still lists the unbuildable server: every sync of it fails half-way, so the next change is the
 			// operator dropping that entry (nothing else is changed while the object cannot be applied completely)
